@@ -41,6 +41,12 @@ def pool(seed, tier):
             m = c.meta or {}
             if not isinstance(m.get("src"), str) or "ds" not in m or "cfg" not in m or m.get("corr_only"):
                 continue
+            # the size families stay with their own checks (the model is slow on big inputs): at most three medium-sized
+            # representatives of each reach the pool
+            if len(m["src"]) > 6000:
+                continue
+            if len(m["src"]) > 1500 and len(picked.get(c.label, [])) >= 3:
+                continue
             n += 1
             # reservoir per label, so that small families are not drowned by the big ones
             bucket = picked.setdefault(c.label, [])
